@@ -53,6 +53,22 @@ def check_C19(tier):
         chk.undecided.append("Components.tla: %s" % (r.error or "no cases")[-300:]); return chk.finish()
     chk.add_tlc(r)
     if r.violated: chk.undecided.append("Components.tla: the transcription violates %s" % r.violated)
+    # concurrency of collect-then-send (Combinator.tla): independent upstreams of any length never dead-lock, one shared
+    # upstream only up to the buffer size (the boundary stated in the property: TLC must find the dead-lock beyond it)
+    def comb_cfg(np_, ln, buf, shared):
+        return ("CONSTANTS NPorts = %d\n Len1 = %d\n BufSize = %d\n Shared = %s\nSPECIFICATION Spec\nINVARIANT C19_AllCollected\nPROPERTY C19_Finishes\n"
+                % (np_, ln, buf, "TRUE" if shared else "FALSE"))
+    for (np_, ln, buf, shared, expect_ok) in [(2, 4, 2, False, True), (3, 3, 1, False, True), (2, 2, 2, True, True), (3, 2, 2, True, True), (2, 3, 2, True, False)] + \
+                                           ([(2, 6, 2, False, True), (3, 4, 2, False, True), (2, 5, 3, True, False)] if thorough else []):
+        rc = run_tlc("Combinator", "cb.cfg", cfgtext=comb_cfg(np_, ln, buf, shared), workers=2, timeout=300)
+        if rc.error: chk.undecided.append("Combinator.tla: " + rc.error[-200:]); continue
+        chk.add_tlc(rc)
+        if expect_ok and not rc.ok:
+            chk.undecided.append("Combinator.tla (ports=%d len=%d buf=%d shared=%s): %s" % (np_, ln, buf, shared, rc.violated or "deadlock"))
+        if not expect_ok and rc.ok:
+            chk.undecided.append("Combinator.tla: the documented boundary (shared upstream beyond the buffer size dead-locks) is not reproduced by the model")
+        if not expect_ok and not rc.ok:
+            chk.extra.setdefault("documented_boundary", []).append("shared upstream, len %d > bufsize %d: dead-lock (outside the property's quantifier)" % (ln, buf))
     names = ["a", "b", "c", "d"]
     jobs = []
     seen = set()
